@@ -459,6 +459,18 @@ class ImplViews(ImplEq):
                 + f"{ints(I.max_duration_per_machine)} | {ints(I.job_durations)} | {I.total_duration} | {mpj} | {mx} | {padded}")
 
     def cmd_dict(self, ts):
+        # an earlier caller derived a renamed variant from the dictionary it was given (top-level keys rebound only: the
+        # matrices and the metadata inside are the instance's own objects) ...
+        d0 = self.instance.to_dict()
+        d0["name"] = "variant of " + str(d0["name"])
+        d0["metadata"] = {"edited": True}
+        # ... and the instance was renamed meanwhile (the library's own transformations do `instance.name += suffix`)
+        old_name = self.instance.name
+        self.instance.name = old_name + "_renamed"
+        renamed = self.instance.to_dict()["name"]
+        self.instance.name = old_name
+        if renamed != old_name + "_renamed":
+            return f"raise stale-name {renamed}"
         d = self.instance.to_dict()
         d2 = _json.loads(_json.dumps(d))
         try:
@@ -822,7 +834,7 @@ from job_shop_lib.visualization import _plot_gantt_chart as _pgc  # noqa: E402
 from job_shop_lib.visualization import _gantt_chart_video_and_gif_creation as _vid  # noqa: E402
 
 
-def read_chart(ax):
+def read_chart(ax, labels=None):
     """What the drawn axes show: (bars, legend jobs, xticks, xlim).  A bar is read back from the polygon
     matplotlib drew (row from its y extent, start and width from its x extent) and its job from the legend
     entry that has the bar's colour."""
@@ -832,7 +844,10 @@ def read_chart(ax):
     if leg is not None:
         for text, handle in zip(leg.get_texts(), leg.legend_handles):
             label = text.get_text()
-            job = int(label.split()[1]) if label.startswith("Job ") else label
+            if labels is not None and label in labels:
+                job = labels.index(label)         # custom job_labels: the label of job j is labels[j]
+            else:
+                job = int(label.split()[1]) if label.startswith("Job ") else label
             legend_jobs.append(job)
             key = tuple(round(float(c), 6) for c in handle.get_facecolor())
             colour_to_job.setdefault(key, []).append(job)
@@ -921,6 +936,13 @@ class ImplViz(ImplGen):
             fig, ax = _pgc.plot_gantt_chart(self.dispatcher.schedule)
             bars, legend, _, _ = read_chart(ax)
             _plt.close(fig)
+            # the same chart with the caller's own job names: same bars, each still coloured like the legend entry of ITS job
+            names = [f"task {chr(97 + j % 26)}{j}" for j in range(self.instance.num_jobs)]
+            fig, ax = _pgc.plot_gantt_chart(self.dispatcher.schedule, job_labels=names)
+            bars2, legend2, _, _ = read_chart(ax, labels=names)
+            _plt.close(fig)
+        if (sorted(bars2), legend2) != (sorted(bars), legend):
+            return f"{lst(bars2)} ; legend {lst(legend2)}"
         return f"{lst(bars)} ; legend {lst(legend)}"
 
     def cmd_ticks(self, ts):
@@ -1135,7 +1157,9 @@ class ImplEnv(ImplViz):
         self.last_obs = obs
         self.last_step = res
         av = lst(o.operation_id for o in info["available_operations"])
-        return f"{fmt_obs(obs)} || r {fmt_val(reward)} d {fmt_bool_(done)} t {fmt_bool_(truncated)} av {av}"
+        # the reward is exact integer arithmetic on the schedule (never a float32 feature): shown in full whatever its size
+        r_txt = str(reward) if isinstance(reward, int) and not isinstance(reward, bool) else fmt_val(reward)
+        return f"{fmt_obs(obs)} || r {r_txt} d {fmt_bool_(done)} t {fmt_bool_(truncated)} av {av}"
 
     def cmd_esched(self, ts):
         if getattr(self, "env", None) is None:
